@@ -115,9 +115,14 @@ def discover():
 
 # --------------------------------------------------------------------------- running kani
 
+INCRATE_TESTS = os.path.join(REPLAY, "trust_lsp_tests.rs")
+
+
 def ensure_dirs():
-    for d in (WORK, LOGS, REPLAY, EVIDENCE):
+    for d in (WORK, LOGS, REPLAY, EVIDENCE, os.path.join(WORK, "generated")):
         os.makedirs(d, exist_ok=True)
+    if not os.path.exists(INCRATE_TESTS):
+        open(INCRATE_TESTS, "w").write("// no replay pending\n")
 
 
 def ensure_lock():
@@ -215,6 +220,7 @@ def parse_result(json_path, logfile, h):
     except OSError:
         pass
     res["log_tail"] = logtxt[-1500:]
+    res["oom_seen"] = ("ran out of memory" in logtxt) or ("Out of memory" in logtxt) or ("std::bad_alloc" in logtxt)
     if not os.path.exists(json_path):
         if "error: could not compile" in logtxt or "error[E" in logtxt:
             res["status"] = "build_error"
@@ -384,7 +390,7 @@ def run_harness(h, tier, table, jobs_note=""):
         res = parse_result(json_path, logfile, h)
         res["rc"] = rc
         res["cmd"] = " ".join(cmd)
-        if "Out of memory" in res["log_tail"] or "ran out of memory" in res["log_tail"] or "std::bad_alloc" in res["log_tail"]:
+        if res.get("oom_seen") and res["status"] not in ("ok", "failed"):
             res["status"] = "oom"
         if timed_out:
             res["status"] = "timeout"
@@ -509,7 +515,25 @@ def run_replay_file(path):
 def run_replay_incrate(full, crate, relfile, names, body):
     """Bin-only crates: the harness file is mounted inside /repo by a cfg(kani) hook; the test is
     appended to a scratch copy of the hook file and the copy is mounted through VERIF_HOOK_OVERRIDE."""
-    return {"reproduced_dev": False, "detail": "in-crate replay not implemented"}
+    res = {"reproduced_dev": False, "reproduced_release": None, "detail": ""}
+    try:
+        open(INCRATE_TESTS, "w").write(body + "\n")
+        cmd = ["cargo", "kani", "playback", "-p", crate, "-Z", "concrete-playback", "--"] + names
+        logfile = os.path.join(LOGS, "incrate_playback.dev.log")
+        rc, to, wall = run_proc(cmd, REPO, logfile, 3600, 24,
+                                {"CARGO_TARGET_DIR": os.path.join(WORK, "playback-target-" + crate)})
+        t = open(logfile, errors="replace").read()
+        failed = re.search(r"test result: FAILED", t) is not None
+        passed = re.search(r"test result: ok", t) is not None
+        res["reproduced_dev"] = failed
+        if not failed and not passed:
+            res["detail"] = f"playback did not run (rc={rc})"
+        m2 = re.findall(r"panicked at ([^\n]*\n[^\n]*)", t)
+        if m2:
+            res["panic"] = m2[0].replace("\n", " ")[:300]
+    finally:
+        open(INCRATE_TESTS, "w").write("// no replay pending\n")
+    return res
 
 
 # --------------------------------------------------------------------------- known findings
